@@ -149,18 +149,30 @@ def step_equation_cases(seed=0):
                 psi[np.concatenate([t.site_indices for t in s.terminal_info])] = tp
             mu = rng.normal(size=len(psi)) * 0.1
             sq = np.abs(psi) ** 2
-            psi1, sq1, dt = s.adaptive_euler_step(0, psi.copy(), sq.copy(), mu.copy(), s.epsilon, 2e-2)
-            n += 1
-            U = np.exp(-1j * mu * dt)
-            z = U * s.gamma ** 2 / 2 * psi
-            w = z * sq + U * (psi + (dt / s.u) * np.sqrt(1 + s.gamma ** 2 * sq) * ((s.epsilon - sq) * psi + s.operators.psi_laplacian @ psi))
-            res = np.abs(psi1 + z * sq1 - w)
-            mod = np.abs(sq1 - np.abs(psi1) ** 2)
-            if res.max() > 1e-9 or mod.max() > 1e-9:
-                k = int(np.argmax(res + mod))
-                tsites = set(np.concatenate([t.site_indices for t in s.terminal_info]).tolist())
-                bad.append(dict(what="the answered step does not satisfy psi' + z|psi'|^2 = w / reports a |psi'|^2 that is not the modulus of psi'", terminal_psi=str(tp),
-                                max_residual=float(res.max()), max_modulus_mismatch=float(mod.max()), worst_site=k, worst_site_is_a_terminal_site=k in tsites, dt=float(dt)))
+            from tdgl.finite_volume.operators import MeshOperators
+            for history in ("as constructed", "after the vector potential changed on a third of the edges", "after a second partial change"):
+                if history != "as constructed":
+                    # the covariant Laplacian of the equation is the one of the vector potential the step is taken in (a localised, time-dependent source)
+                    A_now = np.array(s.operators.link_exponents, dtype=float).copy()
+                    sel = rng.random(len(A_now)) < 0.33
+                    A_now[sel] += 0.4 * rng.normal(size=(int(sel.sum()), A_now.shape[1]))
+                    s.operators.set_link_exponents(A_now)
+                fresh = MeshOperators(s.device.mesh, s.options.sparse_solver, fixed_sites=s.operators.fixed_sites, fix_psi=s.operators.fix_psi)
+                fresh.set_link_exponents(np.array(s.operators.link_exponents, dtype=float))
+                psi1, sq1, dt = s.adaptive_euler_step(0, psi.copy(), sq.copy(), mu.copy(), s.epsilon, 2e-2)
+                n += 1
+                U = np.exp(-1j * mu * dt)
+                z = U * s.gamma ** 2 / 2 * psi
+                w = z * sq + U * (psi + (dt / s.u) * np.sqrt(1 + s.gamma ** 2 * sq) * ((s.epsilon - sq) * psi + fresh.psi_laplacian @ psi))
+                res = np.abs(psi1 + z * sq1 - w)
+                mod = np.abs(sq1 - np.abs(psi1) ** 2)
+                if res.max() > 1e-9 or mod.max() > 1e-9:
+                    k = int(np.argmax(res + mod))
+                    tsites = set(np.concatenate([t.site_indices for t in s.terminal_info]).tolist())
+                    bad.append(dict(what="the answered step does not satisfy psi' + z|psi'|^2 = w (covariant Laplacian of the current vector potential) / reports a |psi'|^2 that is "
+                                         "not the modulus of psi'", terminal_psi=str(tp), history=history,
+                                    max_residual=float(res.max()), max_modulus_mismatch=float(mod.max()), worst_site=k, worst_site_is_a_terminal_site=k in tsites, dt=float(dt)))
+                    break
     logging.disable(logging.NOTSET)
     return bad, n
 
